@@ -29,31 +29,36 @@ pub fn cmd_id(b: u8) -> CmdId {
     CmdId::from_bytes(bytes)
 }
 
-/// Priority encoded as (kind, n): 0 = Merge, 1 = Basic(n), 2 = Finalize, 3 = Init.
+/// Priority encoded as (kind, n, hi): 0 = Merge, 1 = Basic(v), 2 = Finalize, 3 = Init, where
+/// v = n (hi == false) or u32::MAX - n (hi == true): both ends of the u32 range in two bytes.
 #[derive(Clone, Copy, PartialEq, Eq)]
 pub struct VPrio {
     pub kind: u8,
     pub n: u8,
+    pub hi: bool,
 }
 
 impl VPrio {
-    pub const MERGE: Self = Self { kind: 0, n: 0 };
-    pub const INIT: Self = Self { kind: 3, n: 0 };
-    pub const FINALIZE: Self = Self { kind: 2, n: 0 };
+    pub const MERGE: Self = Self { kind: 0, n: 0, hi: false };
+    pub const INIT: Self = Self { kind: 3, n: 0, hi: false };
+    pub const FINALIZE: Self = Self { kind: 2, n: 0, hi: false };
     pub fn basic(n: u8) -> Self {
-        Self { kind: 1, n }
+        Self { kind: 1, n, hi: false }
+    }
+    pub fn value(self) -> u32 {
+        if self.hi { u32::MAX - self.n as u32 } else { self.n as u32 }
     }
     pub fn get(self) -> Priority {
         match self.kind {
             0 => Priority::Merge,
-            1 => Priority::Basic(self.n as u32),
+            1 => Priority::Basic(self.value()),
             2 => Priority::Finalize,
             _ => Priority::Init,
         }
     }
     /// total order key matching `Priority`'s derived Ord
-    pub fn key(self) -> (u8, u8) {
-        (self.kind, if self.kind == 1 { self.n } else { 0 })
+    pub fn key(self) -> (u8, u32) {
+        (self.kind, if self.kind == 1 { self.value() } else { 0 })
     }
 }
 
@@ -108,7 +113,7 @@ impl VSeg {
             first_mc: 0,
             len: 0,
             ids: [0; MAXLEN],
-            prios: [VPrio { kind: 1, n: 0 }; MAXLEN],
+            prios: [VPrio { kind: 1, n: 0, hi: false }; MAXLEN],
             nskip: 0,
             skip: [Location {
                 max_cut: MaxCut::new(0),
